@@ -17,6 +17,8 @@ def canon_model_op(m):
     r = {"o": o}
     if "t" in m:
         r["t"] = m["t"]
+    if "nres" in m:
+        r["nres"] = m["nres"]
     return r
 
 
@@ -38,6 +40,7 @@ def run(seed, n, **kw):
             nops += 1
             hist[b["o"][0]] = hist.get(b["o"][0], 0) + 1
             a = canon_model_op(a)
+            b = {k: v for k, v in b.items() if k in ("o", "t", "nres")}
             if a != b:
                 diffs.append((i, j, "model", a, "impl", b, keep[i][1]["ops"][j]))
                 break
